@@ -74,7 +74,7 @@ Definition lstep (l : ledger) (o : lop) : ledger * lres :=
   match o with
   | OSeen t k n c => match update_seen t k n c l with
                      | Some l' => (l', RNone)
-                     | None => (l, RError)
+                     | None => (supersede t k l, RError)   (* the code returns the error AFTER the supersession ran *)
                      end
   | OWritten t k n => (update_written t k n l, RNone)
   | OEmit => match emit l with
